@@ -130,6 +130,7 @@ class Conn:
         self.handler_done = False
         self.tr = MemTransport(self)
         self.proto = sim.http_server()
+        sim._conns[id(self.proto)] = self
         self.tr.protocol = self.proto
         self.proto.connection_made(self.tr)
 
@@ -454,13 +455,14 @@ class SimH(SimA):
 
     def _make_app(self, app_kwargs):
         from aiohttp import web
+        self._conns = {}
         real = self.server.handle_request
         real_translate = self.server._async['translate_request']
         self.server._async = dict(self.server._async)
 
         def translate(request):
             environ = real_translate(request)
-            conn = getattr(request.transport, 'conn', None)
+            conn = self._conns.get(id(request.protocol))
             if conn is not None and 'wsgi.input' in environ:
                 environ['wsgi.input'] = _CountingBody(environ['wsgi.input'],
                                                       conn.t)
@@ -468,7 +470,8 @@ class SimH(SimA):
         self.server._async['translate_request'] = translate
 
         async def spy(request):
-            conn = getattr(request.transport, 'conn', None)
+            # (request.transport is None once the connection is lost)
+            conn = self._conns.get(id(request.protocol))
             t = conn.t if conn is not None else None
             if t is not None:
                 t.task = asyncio.current_task()
@@ -488,6 +491,10 @@ class SimH(SimA):
             finally:
                 if conn is not None:
                     conn.handler_done = True
+                    if conn.ws is None and conn.tr.lost and not t.done:
+                        # the client went away: nobody is left to answer
+                        t.no_response = True
+                        self.loop.call_soon(self._finish_ws, t, None)
                     if conn.ws is not None:
                         conn.ws.handler_done = True
                         conn.ws.handler_end_clk = self.tick()
@@ -496,7 +503,16 @@ class SimH(SimA):
                         if not t.done:
                             self.loop.call_soon(self._finish_ws, t)
         self.server.handle_request = spy
-        self.webapp = web.Application()
+        self.mw_delay = 0
+
+        @web.middleware
+        async def slow_middleware(request, handler):
+            # an application middleware that awaits before the Engine.IO
+            # handler runs (only when a scenario asks for it)
+            if self.mw_delay:
+                await asyncio.sleep(self.mw_delay)
+            return await handler(request)
+        self.webapp = web.Application(middlewares=[slow_middleware])
         self.server.attach(self.webapp, **(app_kwargs or {}))
         self.runner = web.AppRunner(self.webapp, access_log=None)
         task = self.loop.create_task(self.runner.setup())
@@ -505,10 +521,10 @@ class SimH(SimA):
         self.http_server = self.runner.server
         self.app = None
 
-    def _finish_ws(self, t):
+    def _finish_ws(self, t, status=403):
         if not t.done:
             if t.status is None:
-                t.status = 403
+                t.status = status
             t.finish()
 
     def new_ws(self):
@@ -550,6 +566,12 @@ class SimH(SimA):
         head = '%s %s%s HTTP/1.1\r\n' % (method, path,
                                          ('?' + qs) if qs else '')
         head += ''.join('%s: %s\r\n' % h for h in hs) + '\r\n'
+        if self.client_gone_early:
+            # the client drops the connection while an application
+            # middleware is still awaiting, i.e. before the Engine.IO handler
+            # runs (aiohttp does not cancel handlers by default)
+            self.mw_delay = 0.25
+            self.loop.call_later(0.125, conn.tr.drop)
         conn.feed(head.encode('latin-1', 'replace') + (body or b''))
         return t
 
